@@ -127,7 +127,7 @@ Proof.
     assert (Hv : VR (mkV n vl RNone false) ((n, vl), false)) by (repeat split; cbn; auto; discriminate).
     pose proof (SimS_seq _ _ _ _ _ _
                  (SimS_of_E _ _ _ (SimE_seq _ _ _ _ _ _
-                                     (SimE_seq _ _ _ _ _ _ (IH1 H1 flv slv reg) (IH3 H3 flv slv reg)) (IH2 H2 flv slv reg)))
+                                     (SimE_seq _ _ _ _ _ _ (IH1 H1 flv slv reg) (IH2 H2 flv slv reg)) (IH3 H3 flv slv reg)))
                  (SimS_seq _ _ _ _ _ _
                     (SimS_add _ _ (fun en => [decl_occ en flv (slv + 1) l false (n, vl)]) Hv (fun _ => eq_refl))
                     (IHb Hb flv (slv + 1) l))) as H.
@@ -137,11 +137,8 @@ Proof.
     + cbn [cl_stat]. cbv zeta. rewrite <- !andb_assoc. cbn [andb]. reflexivity.
     + reflexivity.
     + cbv beta. cbn [b_stat fst snd app]. split; [reflexivity|].
-      assert (Hlim : ccore (if has_func e3 then tag_if (fun o => flv <? s_flv o) CB5 (b_exp flv slv reg e2 en)
-                            else b_exp flv slv reg e2 en) = ccore (b_exp flv slv reg e2 en)).
-      { destruct (has_func e3); [apply ccore_tag_if; discriminate|reflexivity]. }
-      rewrite !ccore_app, !ccore_decl_cons. rewrite ccore_tag_if by discriminate. rewrite !ccore_app, Hlim.
-      rewrite <- !app_assoc. apply Permutation_app_head. apply Permutation_app_swap_app.
+      rewrite !ccore_app, !ccore_decl_cons. rewrite ccore_tag_if by discriminate. rewrite !ccore_app.
+      rewrite <- !app_assoc. apply Permutation_refl.
   - (* SForIn *) intros ns ls es b l IHe IHb Hs flv slv reg. cbn [tb_shp_stat] in Hs. apply andb_true_iff in Hs.
     destruct Hs as [He Hb].
     pose proof (SimE_list (fun a => tr_exp flv a) (fun a nm0 => cl_exp nm0 flv a) (fun a en => b_exp flv slv reg a en)
